@@ -110,6 +110,10 @@ pub const DOCS: &[&str] = &[
     // raw-text elements with plain content (no markup-looking text): targets of filters in their own right
     "<html><head><style>p { color: red }</style><script>var a = 1;</script><title>plain</title></head><body><noscript>no script</noscript><div>x</div><script>var b = 2;</script></body></html>",
     "<html><head><STYLE>p{}</STYLE><script src=a.js></script></head><body><noscript></noscript><iframe>frame text</iframe><xmp>x m p</xmp></body></html>",
+    // two documents one after the other (an error page appended by a gateway): the root element occurs again after
+    // it was closed
+    "<html><head><title>one</title></head><body><div>first</div></body></html>\n<html><head><title>two</title></head><body><div>second</div></body></html>",
+    "<html><body><p>a</p></body></html><html><body><p>b</p></body></html><!-- end -->",
 ];
 
 pub fn html_documents() -> Vec<Vec<u8>> {
